@@ -121,7 +121,7 @@ def wall_graph(v, tier, d):
             k = nxt[k]
             n += 1
         final[i] = states[k]
-        cfgs.append({"id": i, "pts": list(st["pts"]), "sI": st["sI"], "eI": st["eI"], "lw": int(st["lw"]), "uw": int(st["uw"]), "wlo": st["wlo"], "whi": st["whi"], "radius": 2})
+        cfgs.append({"id": i, "pts": list(st["pts"]), "sI": st["sI"], "eI": st["eI"], "lw": int(st["lw"]), "uw": int(st["uw"]), "wlo": st["wlo"], "whi": st["whi"], "tlo": st["tlo"], "thi": st["thi"], "radius": 2})
     real = run_driver("contour_wall.py", cfgs, d, "wall")
     cmap = {c["id"]: c for c in cfgs}
     bad = 0
@@ -130,7 +130,8 @@ def wall_graph(v, tier, d):
         f = final[r["id"]]
         c = cmap[r["id"]]
         kind = "wall.X" if c["lw"] else "X.wall"
-        v.add_case("addPointAtWall %s n=%d startInd=%d endInd=%d wall at %s" % (kind, len(c["pts"]), c["sI"], c["eI"], c["wlo"] if c["lw"] else c["whi"]))
+        v.add_case("addPointAtWall %s n=%d startInd=%d endInd=%d wall at %s thickness %s" % (kind, len(c["pts"]), c["sI"], c["eI"], c["wlo"] if c["lw"] else c["whi"],
+                                                                                           c["tlo"] if c["lw"] else c["thi"]))
         v.add_eval(len(f["pts"]) + 2)
         kinds[kind] = kinds.get(kind, 0) + 1
         if f["stage"] != "done":
@@ -141,7 +142,7 @@ def wall_graph(v, tier, d):
         if not ok:
             bad += 1
             what = "raised" if r["raised"] else "indices" if (r["sI"], r["eI"]) != (want["sI"], want["eI"]) else "points"
-            v.violation("C11 engine=wall-replay kind=%s differs=%s endInd_negative=%d" % (kind, what, int(c["eI"] < 0)),
+            v.violation("C11 engine=wall-replay kind=%s differs=%s endInd_negative=%d plate=%d" % (kind, what, int(c["eI"] < 0), int((c["tlo"] if c["lw"] else c["thi"]) > 0)),
                         "real addPointAtWallToContours on %s: got %s, Contour.tla ends in %s" % (c, {k: r[k] for k in ("raised", "exc", "pts", "sI", "eI")}, want),
                         {"config": c, "real": r, "spec_final": want})
     v.add_traces(len(real))
